@@ -43,9 +43,12 @@ enum Role {
     SingleHuge,
     /// flooder whose calls are alternately small and of about 350 bytes
     FlooderBig,
+    /// a call arriving in two chunks at two moments, and later two calls in one arrival: whatever
+    /// the connection remembers from the slow first call must not hide the second of the pair
+    SplitThenPair,
 }
 const ROLES: [Role; 7] = [Role::Flooder, Role::Single1, Role::Single2, Role::SingleSplit, Role::FlooderWatch, Role::FlooderClose, Role::LateJoiner];
-const SIZE_ROLES: [Role; 5] = [Role::Flooder, Role::FlooderBig, Role::Single1, Role::SingleBig, Role::SingleHuge];
+const SIZE_ROLES: [Role; 6] = [Role::Flooder, Role::FlooderBig, Role::Single1, Role::SingleBig, Role::SingleHuge, Role::SplitThenPair];
 
 #[derive(Clone, Debug)]
 enum Act {
@@ -293,6 +296,22 @@ impl Harness for Fairness {
                         w.sched.push((m2, Act::Arrive { conn: i, bytes: c.frame[cut..].to_vec(), completes: vec![c.id] }, false));
                         cx.goal("single-call-in-two-chunks");
                     }
+                    Role::SplitThenPair => {
+                        total_calls += 3;
+                        let c = call_spec(CK::B, base);
+                        let cut = c.frame.len() / 2;
+                        let m1 = self.moment(cx, None);
+                        w.sched.push((m1, Act::Arrive { conn: i, bytes: c.frame[..cut].to_vec(), completes: vec![] }, false));
+                        let m2 = self.moment(cx, Some(m1));
+                        w.sched.push((m2, Act::Arrive { conn: i, bytes: c.frame[cut..].to_vec(), completes: vec![c.id] }, false));
+                        let m3 = self.moment(cx, Some(m2));
+                        let (c2, c3) = (call_spec(CK::P, base + 1), call_spec(CK::P, base + 2));
+                        let mut bytes = c2.frame.clone();
+                        bytes.extend_from_slice(&c3.frame);
+                        w.sched.push((m3, Act::Arrive { conn: i, bytes, completes: vec![c2.id, c3.id] }, false));
+                        cx.goal("single-call-in-two-chunks");
+                        cx.goal("pair-of-calls-after-a-slowly-arriving-one");
+                    }
                     Role::LateJoiner => {
                         total_calls += 1;
                         let m = self.moment(cx, None);
@@ -446,13 +465,13 @@ impl Harness for Fairness {
 
 pub fn run(tier: Tier) -> i32 {
     let mut rep = Report::new("C18", tier.name());
-    rep.rule = "DFS by re-execution over: number of connections x role of each connection (flooder with all calls buffered from the start; one single call; two single calls; one single call arriving in two chunks; flooder whose burst parks it in a stream that ends later; flooder that closes; late joiner; in the sizes phase single calls of 350 bytes and 5 KB and flooders with calls of mixed sizes) x the moment of every scheduled event, where a moment is `before the server first runs` or `at the hand-over of the m-th call to the service` for every m. Only mixes with at least one flooder and one non-flooder count. Outcomes are distinct global service orders".into();
+    rep.rule = "DFS by re-execution over: number of connections x role of each connection (flooder with all calls buffered from the start; one single call; two single calls; one single call arriving in two chunks; flooder whose burst parks it in a stream that ends later; flooder that closes; late joiner; in the sizes phase single calls of 350 bytes and 5 KB, flooders with calls of mixed sizes, and a client whose first call arrives in two chunks and who later sends two calls in one arrival) x the moment of every scheduled event, where a moment is `before the server first runs` or `at the hand-over of the m-th call to the service` for every m. Only mixes with at least one flooder and one non-flooder count. Outcomes are distinct global service orders".into();
     rep.assumptions = vec![
         "a call is `waiting` from the hand-over at which its last byte was delivered; the connection set changes when the server accepts, drops, parks (streaming call handled) or un-parks (stream dropped) a connection, observed at every hand-over".into(),
         "clause 2 is checked as: while a connection's head-of-line call waits and the connection is in the served set, at most N*(T+1) other calls are served, N = connections, T = set changes during the wait".into(),
         "non-flooders submit single complete calls (the statement's quantifier); a complete call followed by a partial one is outside it".into(),
     ];
-    for g in ["flooder", "single-call-arrives-mid-flood", "single-call-in-two-chunks", "streaming-transition", "connection-closes-while-others-wait", "connection-joins-while-others-wait", "a-call-waited-behind-others", "single-call-larger-than-the-receive-buffer"] {
+    for g in ["flooder", "single-call-arrives-mid-flood", "single-call-in-two-chunks", "streaming-transition", "connection-closes-while-others-wait", "connection-joins-while-others-wait", "a-call-waited-behind-others", "single-call-larger-than-the-receive-buffer", "pair-of-calls-after-a-slowly-arriving-one"] {
         rep.require_goal(g);
     }
     let wall = std::time::Duration::from_secs(tier.pick(50, 1500));
